@@ -532,6 +532,9 @@ class Fn:
         if k == 'var':
             vk = n.get('vk')
             if vk == 'param' and not n.get('outer'):
+                alias = getattr(self, 'param_alias', None)
+                if alias and n['pidx'] in alias:
+                    return alias[n['pidx']]      # set while a caller evaluates this function as a helper: the argument's text in the caller's terms
                 return 'p%d' % n['pidx']
             if vk == 'global':
                 return n.get('qname', n['name'])
